@@ -740,7 +740,8 @@ theorem decodeMessagesCtx_cases : ∀ (fuel k : Nat) (s : St),
 
 theorem peekLoop_sat : ∀ (fuel : Nat) (s : St), Inv s → s.rest.length < fuel →
     Ended (peekLoop fuel s).2.2 ∧ Inv (peekLoop fuel s).1 ∧ Reads s (peekLoop fuel s).1 ∧
-      ((peekLoop fuel s).2.2 = .ok () → (peekLoop fuel s).1.q.fileId.isNone = false)
+      ((peekLoop fuel s).2.2 = .ok () →
+        ¬ ((peekLoop fuel s).1.q.fileId.isNone ∧ (peekLoop fuel s).1.q.cur < (peekLoop fuel s).1.q.hdr.dataSize))
   | 0, s, _, hf => by omega
   | fuel + 1, s, hi, hf => by
     unfold peekLoop
@@ -760,7 +761,7 @@ theorem peekLoop_sat : ∀ (fuel : Nat) (s : St), Inv s → s.rest.length < fuel
         | panic => rw [hr] at hm; exact hm.elim
         | hang => rw [hr] at hm; exact hm.elim
     · rename_i hc
-      exact ⟨trivial, hi, Reads.refl s hi.2.2.1, fun _ => by cases hq : s.q.fileId <;> simp_all⟩
+      exact ⟨trivial, hi, Reads.refl s hi.2.2.1, fun _ => hc⟩
 
 theorem discardMessages_sat : ∀ (fuel : Nat) (s : St), Inv s → s.rest.length < fuel →
     Res.Sat (fun s' => Inv s' ∧ Reads s s' ∧ s'.look = s.look ∧ ¬ s'.q.cur < s'.q.hdr.dataSize) (discardMessages fuel s)
@@ -1054,12 +1055,7 @@ theorem stepPeekFileId_good (s : St) (hi : Inv s) : StepGood (stepPeekFileId s) 
       obtain ⟨hend, i2, _, hf⟩ := hm
       simp only at hend i2 hf
       cases r with
-      | ok u =>
-        simp only
-        have := hf rfl
-        cases hq : s2.q.fileId with
-        | none => simp [hq] at this
-        | some f => exact ⟨by simp, by simp, i2, by intro e h; cases h⟩
+      | ok u => exact ⟨by simp, by simp, i2, by intro e h; cases h⟩
       | err e =>
         exact fail_good s2 (Res.err e : Res Unit) i2 (P := fun _ => True) trivial (by intro a h; cases h)
       | panic => exact hend.elim
